@@ -2328,6 +2328,9 @@ safe_string(const uint8_t *buf, int size) {
 		int ch = *buf;
 		if((ch < 0x20 || ch > 0x7e) || ch == '"')
 			return 0;
+		/* An escape sequence or (ISO C modes) a trigraph for the C compiler */
+		if(ch == '\\' || ch == '?')
+			return 0;
 	}
 	return 1;
 }
